@@ -218,4 +218,7 @@ func init() {
 	// ---------------- C15.R2 counter
 	mut("C15", "the key counter is advanced by read-then-set", "core/pkg/distribution/channel/counter.go",
 		"	next, err := c.wrap.Add(ctx, int64(delta))\n	return LocalKey(next), err", "	next := c.wrap.Value() + int64(delta)\n	err := c.wrap.Set(ctx, next)\n	return LocalKey(next), err", "C15.R2.provenance")
+
+	mut("C07", "Valid is merged with AND while the steps are merged with OR", "core/pkg/distribution/framer/iterator/synchronizer.go",
+		"	if res.Ack {\n		s.cycle.res.Ack = true\n	}", "	if res.Command == CommandValid {\n		s.cycle.res.Ack = s.cycle.res.Ack && res.Ack\n	} else if res.Ack {\n		s.cycle.res.Ack = true\n	}", "C07.R2.sync")
 }
